@@ -837,6 +837,31 @@ func readOps() []rop {
 		}
 		return readAll(b).Uint(), nil
 	}, false, false)
+	// what a read hands out must be independent of its source: the derived object is written to afterwards,
+	// and everything read from the source later (and the whole-content check at the end) must be unaffected
+	for _, w := range []int{8, 16} {
+		w := w
+		num(fmt.Sprintf("ReadBits(%d)+Append", w), w, func(s *sut) (*big.Int, error) {
+			var b boc.BitString
+			var err error
+			if s.cell != nil {
+				b, err = s.cell.ReadBits(w)
+			} else {
+				b, err = s.bs.ReadBits(w)
+			}
+			if err != nil {
+				return nil, err
+			}
+			v := readAll(b).Uint()
+			b.Append(mkBS(rb.Pattern(77, 24), 24))
+			if got := readAll(b); len(got) != w+24 || got[:w].Uint().Cmp(v) != 0 {
+				return big.NewInt(-1), nil
+			}
+			return v, nil
+		}, false, false)
+	}
+	// (the []byte returned by ReadBytes may alias the source on the aligned path: overwriting it is the caller's
+	// business, not an operation of the API, and is not judged)
 	num("ReadBit", 1, func(s *sut) (*big.Int, error) {
 		var b bool
 		var err error
@@ -1027,6 +1052,18 @@ func seqHarness(c *enum.Ctx, seed, wDepth, rDepth int) {
 			if avail != len(m.bits)-m.cur {
 				c.Fail("seq:"+op.name+":cursor", "after %v: %d bits available, model says %d", steps, avail, len(m.bits)-m.cur)
 				break
+			}
+		}
+		// whatever was read and whatever was done with the results, the content is what was written
+		if !c.Failed() {
+			var all rb.Bits
+			if viaCell {
+				all = readAll(s.cell.RawBitString())
+			} else {
+				all = readAll(*s.bs)
+			}
+			if !all.Equal(m.bits) {
+				c.Fail("seq:content-changed-by-reads", "after %v the content is %s, written was %s", steps, short(all.String()), short(m.bits.String()))
 			}
 		}
 	})
